@@ -246,6 +246,8 @@ Definition produce_image (T : pixtable) (ox oy : nat) (t : texture) : outcome im
   match format_of_num T (t_fmt t) with
   | None => Err 20%nat                          (* "cannot transcode from unknown color format" *)
   | Some f =>
+      (* "image data has .. bytes, but a WxH image of color format F needs .." *)
+      if negb (Nat.eqb (length (t_data t)) (bpp_nat T f * t_w t * t_h t)) then Err 27%nat else
       do argb <- to_argb T f (t_data t);
       if (length argb <? 4 * t_w t * t_h t)%nat then Panic P_EXPECT   (* from_raw(..).expect("size error?!") *)
       else
